@@ -186,5 +186,9 @@ func checkRoomID(res *eventV3) error {
 		}
 		return checkIDLength(res.eventFields.RoomID, "room")
 	}
+	if !isCreateEvent {
+		// the room ID of a create event is derived from its event ID
+		return checkValidRoomID(res.eventFields.RoomID)
+	}
 	return nil
 }
